@@ -127,12 +127,24 @@ def run(tier):
                 return fl[2]
         return None
     tests = bool_tests(pr, pred)
+    # every write of the run bookkeeping (including parking the program until its imports arrive) comes after the disposal
+    book = []
+    for bi, bl in enumerate(pr.blocks):
+        if bl["c"]:
+            continue
+        for s in bl["s"]:
+            if s[0] == "a" and s[2][0] != "ref":
+                fl = F.place_fields(s[1])
+                if fl and fl[-1][0] == INTERP and fl[-1][2] in ("pending_program", "active_vm", "active_saved_env", "active_module_env", "active_module_path"):
+                    book.append(bi)
+    ck.anchor(bool(book), "prepare() writes run bookkeeping fields")
+    must = [b for b, _ in ins] + book
     ok = False
     for (sb, tt, ft, what) in tests:
-        # the abort is on the true edge and the test dominates every install
-        if any(pr.dominates(tt, a) for a in aborts) and all(pr.dominates(sb, b) for b, _ in ins):
+        # the abort is on the true edge and the test dominates every install and every bookkeeping write
+        if any(pr.dominates(tt, a) for a in aborts) and all(pr.dominates(sb, b) for b in must):
             ok = True
-    if aborts and not tests and all(any(pr.dominates(a, b) for a in aborts) for b, _ in ins):
+    if aborts and not tests and all(any(pr.dominates(a, b) for a in aborts) for b in must):
         ok = True
     ck.instance("R4.prepare-disposes", "prepare", F.short_span(pr.span), ok=ok)
     if not ok:
